@@ -943,6 +943,14 @@ fn function2_registry() -> HashMap<Func2Type, Vec<Function2>> {
                     type_out: Type::unencoded(BasicType::Boolean).mutable(),
                     encoding_invariance: true,
                 },
+                Function2::forward_left_null(BasicType::Float),
+                Function2::forward_right_null(BasicType::Float),
+                Function2::forward_left_null(BasicType::Integer),
+                Function2::forward_right_null(BasicType::Integer),
+                Function2::forward_left_null(BasicType::String),
+                Function2::forward_right_null(BasicType::String),
+                Function2::forward_left_null(BasicType::Null),
+                Function2::forward_right_null(BasicType::Null),
             ],
         ),
         (
@@ -983,6 +991,8 @@ fn function2_registry() -> HashMap<Func2Type, Vec<Function2>> {
                 Function2::forward_right_null(BasicType::Float),
                 Function2::forward_left_null(BasicType::Integer),
                 Function2::forward_right_null(BasicType::Integer),
+                Function2::forward_left_null(BasicType::String),
+                Function2::forward_right_null(BasicType::String),
                 Function2::forward_left_null(BasicType::Null),
                 Function2::forward_right_null(BasicType::Null),
             ],
@@ -1025,6 +1035,8 @@ fn function2_registry() -> HashMap<Func2Type, Vec<Function2>> {
                 Function2::forward_right_null(BasicType::Float),
                 Function2::forward_left_null(BasicType::Integer),
                 Function2::forward_right_null(BasicType::Integer),
+                Function2::forward_left_null(BasicType::String),
+                Function2::forward_right_null(BasicType::String),
                 Function2::forward_left_null(BasicType::Null),
                 Function2::forward_right_null(BasicType::Null),
             ],
@@ -1067,6 +1079,8 @@ fn function2_registry() -> HashMap<Func2Type, Vec<Function2>> {
                 Function2::forward_right_null(BasicType::Float),
                 Function2::forward_left_null(BasicType::Integer),
                 Function2::forward_right_null(BasicType::Integer),
+                Function2::forward_left_null(BasicType::String),
+                Function2::forward_right_null(BasicType::String),
                 Function2::forward_left_null(BasicType::Null),
                 Function2::forward_right_null(BasicType::Null),
             ],
@@ -1109,6 +1123,8 @@ fn function2_registry() -> HashMap<Func2Type, Vec<Function2>> {
                 Function2::forward_right_null(BasicType::Float),
                 Function2::forward_left_null(BasicType::Integer),
                 Function2::forward_right_null(BasicType::Integer),
+                Function2::forward_left_null(BasicType::String),
+                Function2::forward_right_null(BasicType::String),
                 Function2::forward_left_null(BasicType::Null),
                 Function2::forward_right_null(BasicType::Null),
             ],
@@ -1151,6 +1167,8 @@ fn function2_registry() -> HashMap<Func2Type, Vec<Function2>> {
                 Function2::forward_right_null(BasicType::Float),
                 Function2::forward_left_null(BasicType::Integer),
                 Function2::forward_right_null(BasicType::Integer),
+                Function2::forward_left_null(BasicType::String),
+                Function2::forward_right_null(BasicType::String),
                 Function2::forward_left_null(BasicType::Null),
                 Function2::forward_right_null(BasicType::Null),
             ],
